@@ -66,6 +66,7 @@ def run_c01(tier):
             jobs.append({'kind': 'verify', 'case': dict(c, id='v-%d' % len(jobs), seed=vlib.jseed(seed, len(jobs)))})
     for k in range(4 if tier == 'quick' else 300):
         jobs.append({'kind': 'verify-sweep', 'seed': seed * 7919 + k})
+    jobs.append({'kind': 'noncanonical-valid', 'seed': seed * 31 + 5, 'case': {}})
     # the hash-to-curve pipeline as a case graph (HashToCurve.tla): chunk classes x representatives x relation
     h2c = vlib.tlc(SPEC, 'HashToCurve', vlib.cfg({}, invariants=['IdentityIffOpposite', 'Emit'], properties=['RepresentativeForgotten', 'Termination']).replace('CONSTANTS\n', ''), name='h2c')
     if not h2c.ok:
@@ -226,6 +227,7 @@ def run_c05(tier):
     jobs.append({'kind': 'serial-zcash', 'seed': seed, 'case': {}})
     for k in range(1 if tier == 'quick' else 20):
         jobs.append({'kind': 'serial-extra', 'seed': seed * 43 + k, 'case': {}})
+    jobs.append({'kind': 'noncanonical-valid', 'seed': seed * 31 + 6, 'case': {}})
     execute(ck, 'C05', jobs)
     # the key of a violation is "<predicate>|<finding id>" when the executor attributes it to a specific known finding
     for v in ck.violations:
@@ -268,6 +270,7 @@ def run_c16(tier):
                         jobs.append({'kind': 'pop', 'seed': seed + k, 'case': {'tags': tags[k:k + 100]}})
                 continue
             jobs.append({'kind': 'pop', 'seed': vlib.jseed(seed, i, r), 'case': cs})
+    jobs.append({'kind': 'noncanonical-valid', 'seed': seed * 31 + 7, 'case': {}})
     execute(ck, 'C16', jobs)
     for cs in cases:
         if 'tags' not in cs:
@@ -298,6 +301,7 @@ def run_c17(tier):
     cases = tlc_cases(res.out)
     reps = 1 if tier == 'quick' else 30
     jobs = [{'kind': 'spock', 'seed': vlib.jseed(seed, i, r), 'case': cs} for r in range(reps) for i, cs in enumerate(cases)]
+    jobs.append({'kind': 'noncanonical-valid', 'seed': seed * 31 + 8, 'case': {}})
     execute(ck, 'C17', jobs)
     for cs in cases:
         ck.case(vlib.digest([cs['k1'], cs['p1'], cs['k2'], cs['p2']]), not (cs['p1'] == 'honest' and cs['p2'] == 'honest'))
